@@ -432,6 +432,113 @@ func checkRefsFor(p *Program, r *Report) {
 	}
 }
 
+// checkAccessors (C04, sibling rule ACCESSOR): for every niladic method of
+// interface Table that returns a plain value, either all in-package
+// implementations derive the result from their receiver or all return a
+// constant; a constant sibling of a receiver-derived accessor is reported.
+func checkAccessors(p *Program, r *Report) {
+	tab := p.namedType("Table").Underlying().(*types.Interface)
+	cg := buildCallGraph(p)
+	_ = cg
+	n := 0
+	for i := 0; i < tab.NumMethods(); i++ {
+		m := tab.Method(i)
+		sig := m.Type().(*types.Signature)
+		if sig.Params().Len() != 0 || sig.Results().Len() != 1 {
+			continue
+		}
+		type impl struct {
+			f       *ssa.Function
+			derived bool
+		}
+		var impls []impl
+		for _, f := range p.Funcs {
+			if f.Parent() != nil || f.Name() != m.Name() || f.Signature.Recv() == nil || !types.Implements(f.Signature.Recv().Type(), tab) {
+				continue
+			}
+			derived := false
+			for _, b := range f.Blocks {
+				for _, ins := range b.Instrs {
+					if ret, ok := ins.(*ssa.Return); ok && len(ret.Results) == 1 {
+						if _, _, ok := rootParam(f, ret.Results[0], 0); ok {
+							derived = true
+						}
+						// results of calls on receiver-derived values count as derived
+						var walk func(v ssa.Value, d int) bool
+						walk = func(v ssa.Value, d int) bool {
+							if d > 8 {
+								return false
+							}
+							if _, _, ok := rootParam(f, v, 0); ok {
+								return true
+							}
+							switch x := v.(type) {
+							case *ssa.Call:
+								for _, a := range x.Call.Args {
+									if walk(a, d+1) {
+										return true
+									}
+								}
+								if x.Call.IsInvoke() {
+									return walk(x.Call.Value, d+1)
+								}
+							case *ssa.Phi:
+								for _, e := range x.Edges {
+									if walk(e, d+1) {
+										return true
+									}
+								}
+							case *ssa.BinOp:
+								return walk(x.X, d+1) || walk(x.Y, d+1)
+							case *ssa.Extract:
+								return walk(x.Tuple, d+1)
+							}
+							return false
+						}
+						if walk(ret.Results[0], 0) {
+							derived = true
+						}
+					}
+				}
+			}
+			// only a definite constant result is treated as "not derived"
+			constant := false
+			for _, b := range f.Blocks {
+				for _, ins := range b.Instrs {
+					if ret, ok := ins.(*ssa.Return); ok && len(ret.Results) == 1 {
+						switch v := ret.Results[0].(type) {
+						case *ssa.Const:
+							constant = true
+						case *ssa.UnOp:
+							if _, isG := v.X.(*ssa.Global); isG {
+								constant = true
+							}
+						}
+					}
+				}
+			}
+			if !constant {
+				derived = true
+			}
+			impls = append(impls, impl{f, derived})
+		}
+		anyDerived := false
+		for _, im := range impls {
+			anyDerived = anyDerived || im.derived
+		}
+		for _, im := range impls {
+			n++
+			key := funcKey(im.f) + " / accessor reports the object's own state"
+			if anyDerived && !im.derived {
+				r.violate("ACCESSOR", key, p.pos(im.f.Pos()), "this implementation of Table."+m.Name()+" returns a constant while a sibling implementation derives the value from its receiver: tables of another kind (e.g. a SHA-256 table) are misreported and rejected when the merged view is built", nil)
+			} else {
+				r.ok("ACCESSOR", key, "result derived from the receiver")
+			}
+		}
+	}
+	r.floor("ACCESSOR", n, 6, "accessor implementations of interface Table")
+}
+
 func init() {
 	checks["C11"] = func(p *Program, r *Report) {
 		checkRefsFor(p, r)
